@@ -488,7 +488,8 @@ def owner_root(mir, syn, path, depth=4):
         mir.__dict__["_callers"] = callers
     private = mir.__dict__.get("_private_free")
     if private is None:
-        private = {f["qual"] for f in syn.fns if f.get("impl_of") is None and f.get("vis", "") == "" and f.get("qual")}
+        private = {f["qual"] for f in syn.fns if f.get("vis", "") == "" and f.get("qual") and not f.get("impl_trait") and
+                   (f.get("impl_of") is None or f["name"] not in ("new", "from", "default"))}      # private free functions and private inherent methods
         mir.__dict__["_private_free"] = private
 
     def unclosure(p):
